@@ -944,8 +944,12 @@ fn check_sockets(st: &mut CStats, sockets_run: &mut u64, sockets_unavailable: &m
     let _ = std::fs::create_dir_all(&dir);
     for kind in ["tcp", "unix"] {
         for codec in [Codec::Json, Codec::Bincode] {
+          for drop_writer in [false, true] {
             for (fi, (fname, apply, sizes)) in framings.iter().enumerate() {
-                let label = format!("{kind} {codec:?} with {fname} on both ends");
+                if drop_writer && fi > 1 {
+                    continue;
+                }
+                let label = format!("{kind} {codec:?} with {fname} on both ends{}", if drop_writer { ", writer dropped without close" } else { "" });
                 let sizes = sizes.clone();
                 let apply = *apply;
                 let sock_path = dir.join(format!("s{fi}-{codec:?}.sock"));
@@ -976,6 +980,27 @@ fn check_sockets(st: &mut CStats, sockets_run: &mut u64, sockets_unavailable: &m
                                     Some(Err(e)) => return Err(format!("client read error at response {k}: {e}")),
                                     None => return Err(format!("client saw end-of-stream instead of response {k}")),
                                 }
+                            }
+                            if drop_writer {
+                                // the writer is simply dropped (no close): everything whose send
+                                // had resolved is read, then end-of-stream - not an error
+                                for k in 0..3u64 {
+                                    client.send(ClientMessage::Request(Request { context: tarpc::context::current(), id: 700 + k, message: "last words".to_string() })).await.map_err(|e| format!("client send: {e}"))?;
+                                }
+                                drop(client);
+                                for k in 0..3u64 {
+                                    match server.next().await {
+                                        Some(Ok(ClientMessage::Request(r))) if r.id == 700 + k => {}
+                                        Some(Ok(other)) => return Err(format!("server read {:.80?} instead of request {}", other, 700 + k)),
+                                        Some(Err(e)) => return Err(format!("server read error for a message sent before the writer was dropped: {e}")),
+                                        None => return Err(format!("end-of-stream before message {} that was sent before the writer was dropped", 700 + k)),
+                                    }
+                                }
+                                return match server.next().await {
+                                    None => Ok(()),
+                                    Some(Ok(m)) => Err(format!("extra message after the writer was dropped: {:.80?}", m)),
+                                    Some(Err(e)) => Err(format!("error instead of end-of-stream after the writer was dropped: {e}")),
+                                };
                             }
                             // one end closes its writing side (where the medium can signal that):
                             // the other end sees end-of-stream, and what it writes afterwards still
@@ -1041,7 +1066,7 @@ fn check_sockets(st: &mut CStats, sockets_run: &mut u64, sockets_unavailable: &m
                 match res {
                     Ok(Ok(())) => {
                         *sockets_run += 1;
-                        st.distinct.insert(hash_of(&("socket", kind, codec, fi)));
+                        st.distinct.insert(hash_of(&("socket", kind, codec, fi, drop_writer)));
                         if st.samples.len() < 3 {
                             st.samples.push(format!("{label}: bodies of {sizes:?} bytes each way, then the writer is dropped"));
                         }
@@ -1057,6 +1082,7 @@ fn check_sockets(st: &mut CStats, sockets_run: &mut u64, sockets_unavailable: &m
                     }
                 }
             }
+          }
         }
     }
     let _ = std::fs::remove_dir_all(&dir);
